@@ -413,39 +413,37 @@ def check_watson(ck):
     fn = A.prog.func(q)
     ret = strip_views(g.ret)
     if is_call_to(ret, 'numpy.log'):
-        c, fs = product_factors(call_arg(ret, 0))
-        hyp = [f for f in fs if is_call_to(peel(f), 'scipy.special.hyp1f1')]
+        from ..ratfun import rational, NotRational, A as _A, C as _C
+        hyp = [x for x in walk_terms(call_arg(ret, 0), into_mu=False) if is_call_to(x, 'scipy.special.hyp1f1')]
         if hyp:
             ck.resolved += 1
-            h = peel(hyp[0])
+            h = hyp[0]
             a, b, x = call_arg(h, 0), call_arg(h, 1), call_arg(h, 2)
             okh = const_val(a) == 1 and b.op == 'param' and b.args[0] == 'dimension' and x.op == 'param' and x.args[0] == 'scale'
             run.check(okh, 'R-LIN', 'ComplexWatson.log_norm_1f1: 1F1(1; D; kappa)', fn.loc(h.node), '', 'confluent hypergeometric function is not 1F1(1, dimension, scale)',
                       construct=f'R-LIN::{q}::hyp1f1-args')
-            rest = [f for f in fs if f is not hyp[0]]
-            # 2 * pi**D / (D-1)!
-            txt_ok = False
-            if abs(c - 2.0) < 1e-12 and len(rest) == 1:
-                r = peel(rest[0])
-                if isinstance(r, T) and r.op == 'binop' and r.args[0] == 'Div':
-                    num, den = peel(r.args[1]), peel(r.args[2])
-                    okn = num.op == 'binop' and num.args[0] == 'Pow' and is_pi(num.args[1]) and num.args[2].op == 'param' and num.args[2].args[0] == 'dimension'
-                    okd = is_call_to(den, 'math.factorial') and call_arg(den, 0).op == 'binop' and call_arg(den, 0).args[0] == 'Sub' \
-                        and const_val(call_arg(den, 0).args[2]) == 1 and call_arg(den, 0).args[1].op == 'param'
-                    txt_ok = okn and okd
-            elif len(rest) == 1:
-                # (2 * pi**D / (D-1)!) kept as one factor
-                r = peel(rest[0])
-                if isinstance(r, T) and r.op == 'binop' and r.args[0] == 'Div':
-                    cn, fn_ = product_factors(r.args[1])
-                    den = peel(r.args[2])
-                    okn = abs(cn * c - 2.0) < 1e-12 and len(fn_) == 1 and peel(fn_[0]).op == 'binop' and peel(fn_[0]).args[0] == 'Pow' and is_pi(peel(fn_[0]).args[1]) \
-                        and peel(fn_[0]).args[2].op == 'param' and peel(fn_[0]).args[2].args[0] == 'dimension'
-                    okd = is_call_to(den, 'math.factorial') and call_arg(den, 0).op == 'binop' and call_arg(den, 0).args[0] == 'Sub' \
-                        and const_val(call_arg(den, 0).args[2]) == 1 and call_arg(den, 0).args[1].op == 'param'
-                    txt_ok = okn and okd
-            run.check(txt_ok, 'R-LIN', 'ComplexWatson.log_norm_1f1: sphere area factor 2 pi^D / (D-1)!', fn.loc(h.node), '',
-                      'the factor multiplying 1F1 is not 2 * pi**D / (D-1)!', construct=f'R-LIN::{q}::sphere-area')
+
+            # the argument of the logarithm as a quotient of polynomials over {1F1, pi^D, (D-1)!}: any spelling of 2 pi^D / (D-1)! * 1F1 is accepted
+            def atoms(t):
+                if t is h:
+                    return 'H'
+                if t.op == 'binop' and t.args[0] == 'Pow' and is_pi(t.args[1]):
+                    ok_e = peel(t.args[2]).op == 'param' and peel(t.args[2]).args[0] == 'dimension'
+                    return 'PI^D' if ok_e else f'PI^<{norm_stmt(t.args[2].node)[:30]}>'          # a recognised atom with another exponent: a deviation, not an unknown
+                if is_call_to(t, 'math.factorial', 'scipy.special.factorial'):
+                    d = peel(call_arg(t, 0))
+                    if d.op == 'binop' and d.args[0] == 'Sub' and const_val(d.args[2]) == 1 and peel(d.args[1]).op == 'param' and peel(d.args[1]).args[0] == 'dimension':
+                        return '(D-1)!'
+                    return f'factorial(<{norm_stmt(call_arg(t, 0).node)[:30]}>)'
+                return None
+            try:
+                got = rational(call_arg(ret, 0), atoms)
+            except NotRational as e:
+                run.unresolved('R-LIN', 'ComplexWatson.log_norm_1f1: sphere area factor', fn.loc(h.node), f'normaliser not a recognised rational expression ({e})')
+            else:
+                want = _C(2) * _A('PI^D') * _A('H') / _A('(D-1)!')
+                run.check(got.same(want), 'R-LIN', 'ComplexWatson.log_norm_1f1: sphere area factor 2 pi^D / (D-1)!', fn.loc(h.node), '',
+                          f'the normaliser is not 1F1(1; D; kappa) * 2 * pi**D / (D-1)!  (found {got})', construct=f'R-LIN::{q}::sphere-area')
         else:
             run.unresolved('R-LIN', 'ComplexWatson.log_norm_1f1', fn.loc(), 'hyp1f1 factor not found')
     else:
